@@ -53,6 +53,8 @@ ALL_SRC = [
 ]
 RP_CLOSE = dict(kind='direct', harness='replay/direct/writer_close.c', sources=ALL_SRC, vars={})
 
+CRE = dict(defines=['CQV_NLEAF_MAX=2', 'CQV_NCOL_MAX=2', 'CQV_GENERIC_REALLOC=1'], unwind=4, loop_contracts=False,
+           level='bounded', bound='schema with <= 2 leaves; all loops fully unwound')
 F_DEF = ['CQV_EXACT_MEMCMP=8', 'CQV_MEMCPY_EXACT=16']
 F = dict(harness='harness/C04/footer.c', props=['C04', 'C18'], includes=['.'], extra_sources=[], loop_contracts=False,
          unwind=17, checks=LEAK,
@@ -80,6 +82,17 @@ JOBS = [
     dict(name='c18_close_resources_b', entry='h_close_resources', functions=['carquet_writer_close', 'build_file_metadata'],
          checks=LEAK, est_s=100, **BND, **W),
     dict(name='c18_abort_b', entry='h_abort', functions=['carquet_writer_abort'], checks=LEAK, est_s=4, **BND, **W),
+    # ---- carquet_writer_create / carquet_writer_create_file failure paths (fopen, strdup, calloc, realloc, arena fail) ----
+    dict(name='c18_create_b', entry='h_create', functions=['carquet_writer_create', 'add_column_internal', 'carquet_writer_abort'],
+         checks=LEAK, cbmc_flags=['--malloc-may-fail', '--malloc-fail-null'], est_s=120, tier='thorough', wip=True, **CRE, **W),
+    dict(name='c18_create_file_b', entry='h_create_file',
+         functions=['carquet_writer_create_file', 'add_column_internal', 'carquet_writer_abort'],
+         checks=LEAK, cbmc_flags=['--malloc-may-fail', '--malloc-fail-null'], est_s=120, tier='thorough', wip=True, **CRE, **W),
+    dict(name='c18_create_no_file_left_b', entry='h_create', functions=['carquet_writer_create'], wip=True, tier='thorough',
+         checks=LEAK, cbmc_flags=['--malloc-may-fail', '--malloc-fail-null'],
+         note='OBSERVATION, not a property-level obligation: a failed carquet_writer_create that had already opened the file '
+              'should remove it; expected to fail on the strdup(path) failure path (fclose without remove).',
+         **dict(CRE, defines=CRE['defines'] + ['CQV_CREATE_STRICT=1']), **W),
     # ---- footer validation of the three open paths (C04 + C18), proof level, loop-free ----
     dict(name='c04_read_footer', entry='h_read_footer', functions=['read_footer'], replace=['build_schema'],
          overlays=['contracts/footer.ovl'], defines=F_DEF + ['CQV_SRC=1'], est_s=15, **F),
